@@ -74,7 +74,7 @@ func main() {
 				port, ok, _ := s.Desc.L4.DstPort()
 				term := vgen.App("Prov.CTamper", topo, now, s.Walk.MacsTerm(), p.ProvTerm(),
 					netgen.ParamsTerm(base.Rec, port, ok), "Prov."+a.field, fmt.Sprintf("%d%%nat", a.idx), vgen.N(val),
-					s.Rec.Gallina(port, ok), "true", s.Walk.TraceTerm())
+					netgen.RecTerm(s.Rec, port, ok), "true", s.Walk.TraceTerm())
 				w.Tallies(run, p, s.Walk)
 				run.Tally("field:" + a.field + ":" + s.Walk.Final.Kind + ":" + s.Walk.Final.StopDesc)
 				desc := s.Describe(w)
